@@ -112,9 +112,15 @@ def case(spec, log):
 
 def gen_history(r):
     ops = []
+    created = []
     for _ in range(r.randint(3, 8)):
         x = r.random()
         i = r.randint(1, 3)
+        # bias towards ids that exist: several workers in one context, deletes of populated contexts
+        if created and r.random() < 0.6:
+            i = r.choice(created)
+        if x < 0.30:
+            created.append(i)
         if x < 0.30:
             ops.append(['create', i])
         elif x < 0.45:
@@ -186,6 +192,10 @@ def judge(chk, spec, res):
                 probs.append('context-worker-computed-%s-instead-of-%s' % (short(rec['value'], 40), want))
     if end and not probs:
         e = end[0]
+        for (i, g, alive, he) in e['workers']:
+            if alive and table.get(i) != g:
+                probs.append('worker-of-deleted-context-still-alive')
+                break
         if not e['server_alive']:
             probs.append('server-died')
         elif "(True, 3)" not in e['probe']:
@@ -204,7 +214,9 @@ def run(tier):
     r = rng('c18')
     jobs = [gen_history(r) for _ in range(300 if thorough else 60)]
     # fixed corner histories
-    jobs += [dict(ops=[['create', 1], ['create', 1], ['worker', 1], ['enqueue', 0, 3], ['delete', 1], ['create', 1], ['worker', 1], ['enqueue', 0, 4]]),
+    jobs += [dict(ops=[['create', 1], ['worker', 1], ['worker', 1], ['worker', 1], ['enqueue', 1, 2], ['delete', 1], ['create', 1], ['worker', 1], ['enqueue', 0, 4]]),
+             dict(ops=[['create', 2], ['worker', 2], ['worker', 2], ['create', 3], ['worker', 3], ['delete', 2], ['enqueue', 0, 3], ['delete', 3]]),
+             dict(ops=[['create', 1], ['create', 1], ['worker', 1], ['enqueue', 0, 3], ['delete', 1], ['create', 1], ['worker', 1], ['enqueue', 0, 4]]),
              dict(ops=[['worker', 2], ['delete', 2], ['create', 2], ['worker', 2], ['enqueue', 0, 5]]),
              dict(ops=[['create', 1], ['create', 2], ['create', 3], ['worker', 3], ['worker', 1], ['enqueue', 0, 2], ['enqueue', 1, 2], ['delete', 3]])]
     wd = workdir('c18')
